@@ -198,6 +198,9 @@ def generate(rng, tier, corpus_only=False):
             if op == "qcons":
                 d = zint(rng) or 1
                 g = rng.randint(1, 12)
+                if rng.random() < 0.25:
+                    # unit and tiny denominators of either sign (nothing to cancel, but the sign must move to the numerator)
+                    d, g = rng.choice([1, -1, -1, 2, -2, -3]), 1
                 cases.append("%s %d %d" % (op, zint(rng) * g, d * g))
             elif op in ("qadd", "qsub", "qmul", "qdiv", "qcmp"):
                 if rng.random() < 0.2:
@@ -249,6 +252,15 @@ def generate(rng, tier, corpus_only=False):
             elif op in ("dadd", "dsub", "dmul"):
                 if rng.random() < 0.25:
                     b = (a[0] if rng.random() < 0.5 else -a[0], a[1])
+                elif op != "dmul" and rng.random() < 0.2:
+                    # cancellation that leaves a numerator with MANY trailing zero bits over a large exponent: the result
+                    # must be normalised by stripping k >= 60 (also > 64, > 128) factors of two
+                    k2, n2 = rng.choice([60, 63, 64, 65, 66, 90, 127, 128, 129, 200]), rng.choice([64, 65, 66, 100, 130, 200, 260])
+                    v = rng.randint(-2**20, 2**20) | 1
+                    a = ((rng.randint(-50, 50) | 1) * 2**k2 + v, n2)
+                    b = (-v, n2) if op == "dadd" else (v, n2)
+                    if rng.random() < 0.3:
+                        a, b = (b, a) if op == "dadd" else (a, b)
                 cases.append("%s %d %d %d %d %d %d" % (op, a[0], a[1], b[0], b[1], u[0], u[1]))
             elif op == "dneg":
                 cases.append("%s %d %d %d %d" % (op, a[0], a[1], u[0], u[1]))
